@@ -12,6 +12,7 @@ package c05
 //   syncx-misc          Pool.Put(nil) at full capacity, NewPool(n <= 0), Cond.Wait / Signal
 
 import (
+	"context"
 	"errors"
 	"fmt"
 	"math"
@@ -357,6 +358,13 @@ func fxOptsCase(c *kit.Case) {
 		p.Class, p.Opt = "option-repeated", fmt.Sprintf("WithWorkers(%d), WithWorkers(%d)", a, p.N)
 		opts = []fx.Option{fx.WithWorkers(a), fx.WithWorkers(p.N)}
 	}
+	p.Up, p.Term = kit.Choose(r, fxUps), kit.Choose(r, fxTerms)
+	if p.API == "Parallel" {
+		p.Term = ""
+	}
+	if p.Up != "" || (p.Term != "" && p.Term != "Done") {
+		c.Obs("fx-opt_calls_inside_a_longer_pipeline", 1)
+	}
 	c.Obs("fx-opt_calls_"+p.Class, 1)
 	fxDrive(c, p, opts)
 }
@@ -398,6 +406,11 @@ func mrOptsCase(c *kit.Case) {
 			p.Items = append(p.Items, pipeItem{H: genHold(r), Panic: r.Intn(100) < p.PanicPct, Cancel: r.Intn(100) < errPct})
 		}
 	}
+	if p.Class != "finish" && r.Chance(0.3) {
+		// a context that is never cancelled must not change anything (cancellation is C10's matter)
+		opts = append(opts, mr.WithContext(context.Background()))
+		p.Opt += " + WithContext(background)"
+	}
 	c.Obs("mr-opt_calls_"+p.Class, 1)
 	mrDrive(c, p, opts)
 }
@@ -425,6 +438,11 @@ func maxConnsUnlimitedCase(c *kit.Case) {
 	}
 	if mcWorkload(c, p, lk, []*mcSite{s}) {
 		c.Obs("maxconns-unlimited_requests_admitted", s.m.acquired.Load())
+		if p.N == 0 {
+			c.Obs("maxconns-unlimited_requests_admitted_with_n_0", s.m.acquired.Load())
+		} else {
+			c.Obs("maxconns-unlimited_requests_admitted_with_n_negative", s.m.acquired.Load())
+		}
 		c.Obs("maxconns-unlimited_peak_requests_inside", s.m.g.Max())
 	}
 	mcFinish(c, p, []*mcSite{s})
@@ -432,8 +450,11 @@ func maxConnsUnlimitedCase(c *kit.Case) {
 
 // ---------------------------------------------------------------- StableRunner
 //
-// NewStableRunner(handle) runs handle as tasks of a TaskRunner of runtime.NumCPU()
-// slots: at most NumCPU handlers are inside at once. (Ordering of Get is not C05's.)
+// NewStableRunner(handle) runs handle as tasks of a TaskRunner it creates itself (today with
+// runtime.NumCPU() slots). That number is not configured by the caller nor documented, so it
+// is no "capacity n" of the statement: nothing is demanded of the peak, it is only recorded
+// (together with whether it stayed within NumCPU). What the family adds is reach (Schedule
+// through its only in-tree wrapper, under the race detector) with concurrent Push / Get.
 
 func stableRunnerCase(c *kit.Case) {
 	r := c.R
@@ -447,7 +468,7 @@ func stableRunnerCase(c *kit.Case) {
 		holds[i] = genHold(r)
 	}
 	plan := map[string]any{"NumCPU": n, "messages": k, "holds": fmt.Sprint(holds)}
-	m := newMon(c, "stablerunner", n, plan)
+	m := newMon(c, "stablerunner", k+1, plan) // k+1: cannot be exceeded by k messages
 	actors := make([]*kit.Actor, k)
 	for i := range actors {
 		actors[i] = m.actor()
@@ -490,6 +511,14 @@ func stableRunnerCase(c *kit.Case) {
 	case <-done:
 		c.Obs("stablerunner_messages_handled", m.released.Load())
 		c.Obs("stablerunner_results_taken_in_push_order", inOrder.Load())
+		if m.g.Max() <= int64(n) {
+			c.Obs("stablerunner_histories_with_peak_within_NumCPU", 1)
+		} else {
+			c.Obs("stablerunner_histories_with_peak_above_NumCPU", 1)
+		}
+		if m.g.Max() == int64(n) {
+			c.Obs("stablerunner_histories_with_peak_equal_to_NumCPU", 1)
+		}
 		if waitUntil(func() bool { return m.released.Load() == m.acquired.Load() && m.g.Cur() == 0 }, caseWatchdog) {
 			m.finish(k)
 		}
